@@ -4,6 +4,8 @@
    hence valid for all values).  Real-number part: the accessors the conversions are made of preserve the vector. *)
 From Coq Require Import Reals List Bool.
 From VP Require Import Lib RLib Spec Compute Tables ObjModel ObjNames ObjApi ObjChecks C04_conv.
+From VP Require ObjModel ObjNames NbModel NbApi NbChecks.
+Import ObjNames List.ListNotations.
 
 (* to_<system>(): 40 methods x 40 sources (20 systems x 2 flavors) x keyword choices.
    - a coordinate group already stored in the target system is returned as the stored VARIABLES (bit for bit);
@@ -25,6 +27,15 @@ Proof.
 Qed.
 
 (* the table is not trivial *)
+
+(* the same laws hold in numba-compiled code: for these operations every program point of the numba-supported API has the
+   same outcome (class, coordinate system, field expressions over the generated compute definitions) through the
+   Numba overload layer as through the interpreter (T5 table, gen/NbApi*.v; exceptions: the C07 known findings) *)
+Theorem C04_compiled_conversions_are_the_interpreted_ones :
+  VP.NbChecks.agree_on [N_to_xy; N_to_xyz; N_to_xyzt; N_to_xyztau; N_to_xytheta; N_to_xythetat; N_to_xythetatau; N_to_xyeta; N_to_xyetat; N_to_xyetatau; N_to_rhophi; N_to_rhophiz; N_to_rhophizt; N_to_rhophiztau; N_to_rhophitheta; N_to_rhophithetat; N_to_rhophithetatau; N_to_rhophieta; N_to_rhophietat; N_to_rhophietatau; N_to_Vector2D; N_to_Vector3D; N_to_Vector4D]%list = true /\
+  Nat.ltb 100 (VP.NbChecks.count_on [N_to_xy; N_to_xyz; N_to_xyzt; N_to_xyztau; N_to_xytheta; N_to_xythetat; N_to_xythetatau; N_to_xyeta; N_to_xyetat; N_to_xyetatau; N_to_rhophi; N_to_rhophiz; N_to_rhophizt; N_to_rhophiztau; N_to_rhophitheta; N_to_rhophithetat; N_to_rhophithetatau; N_to_rhophieta; N_to_rhophietat; N_to_rhophietatau; N_to_Vector2D; N_to_Vector3D; N_to_Vector4D]%list) = true.
+Proof. vm_cast_no_check (conj (eq_refl true) (eq_refl true)). Qed.
+
 Example C04_nonvacuous : (5000 <? length conv_tab)%nat = true /\
   existsb (fun e => match e with (_, _, Some _, _ :: _, OutVec _ _ _ _) => true | _ => false end) conv_tab = true.
 Proof. vm_compute. split; reflexivity. Qed.
